@@ -40,8 +40,12 @@ package types
 //@   ensures [spec] r == ((byte(t)&0x1F) == 8 || (byte(t)&0x1F) == 9)
 //@   assigns nothing
 
+//@@ the base type a 5-bit type number stands for: multi-byte types carry the 0x80 flag
+//@ spec pure DecompSpec(i byte) Base := ite(SizeSpec(i&0x1F) > 1 && (i&0x1F) <= 16, Base((i&0x1F)|0x80), Base(i&0x1F))
+
 //@ func decompress(b byte) (r Base)
 //@   props C01 C15
+//@   ensures [spec] r == DecompSpec(b)
 //@   ensures [index] byte(r)&0x1F == b&0x1F
 //@   ensures [known] (b&0x1F) <= 16 ==> KnownIdx(r)
 //@   assigns nothing
@@ -58,6 +62,7 @@ package types
 
 //@ func (f Fit) BaseType() (r Base)
 //@   props C01 C15
+//@   ensures [spec] r == DecompSpec(byte(f))
 //@   ensures [index] byte(r)&0x1F == byte(f)&0x1F
 //@   ensures [known] (byte(f)&0x1F) <= 16 ==> KnownIdx(r)
 //@   assigns nothing
